@@ -190,6 +190,43 @@ static void run_case(Ctx &c) {
         }
         c.count(std::string("axis:") + D.ax.kname());
         check_axis(c, D, idx, with_units);
+        // ---- the axis changes through ANOTHER handle (or through the aliased array); the handles held in D
+        // must answer for the new axis (a conversion must never be served from state cached per handle)
+        if (r.chance(0.6)) {
+            std::vector<long> idx2; Dimension other = da.getDimension(1);
+            if (kind == Axis::Sampled) {
+                Axis nx = gen_sampled(r); c.op("change-axis-via-second-handle sampled");
+                SampledDimension o2 = other.asSampledDimension(); o2.samplingInterval(nx.dt); if (nx.off != 0.0) o2.offset(nx.off); else o2.offset(boost::none);
+                D.ax.dt = nx.dt; D.ax.off = nx.off; for (int j = 0; j < 12; j++) idx2.push_back((long)r.u(200));
+            } else if (kind == Axis::Range) {
+                long n2 = (long)r.range(2, 60); Axis nx = gen_range(r, n2); c.op("change-axis-via-second-handle range");
+                other.asRangeDimension().ticks(nx.ticks); D.ax.ticks = nx.ticks; for (int j = 0; j < 12; j++) idx2.push_back((long)r.u(n2)); idx2.push_back(n2 - 1);
+            } else if (kind == Axis::Set) {
+                long L = (long)r.range(1, 9); std::vector<std::string> labels; for (long i = 0; i < L; i++) labels.push_back("m" + str(i)); c.op("change-axis-via-second-handle set");
+                other.asSetDimension().labels(labels); D.ax.nlabels = L; for (long i = 0; i < L; i++) idx2.push_back(i);
+            } else {
+                long R2 = (long)r.range(1, 12); c.op("change-axis-via-frame-rows frame");
+                b.getDataFrame("f" + str(k)).rows((ndsize_t)R2); D.ax.rows = R2; for (long i = 0; i < R2; i++) idx2.push_back(i);
+            }
+            idx2.push_back(0);
+            c.count("axis_changed_behind_handle");
+            check_axis(c, D, idx2, false);
+        }
+    }
+    // ---- alias range dimension: the ticks are the array's data; writes through the array must be seen by the dimension handle
+    {
+        long n = (long)r.range(2, 40); Axis ax = gen_range(r, n);
+        DataArray da = b.createDataArray("alias", "t", DataType::Double, NDSize{(ndsize_t)n}); da.setData(ax.ticks); da.unit("ms");
+        c.op("appendAliasRangeDimension | n=" + str(n));
+        Dim D; D.ax = ax; D.rd = da.appendAliasRangeDimension();
+        std::vector<long> idx; for (int j = 0; j < 10; j++) idx.push_back((long)r.u(n)); idx.push_back(0); idx.push_back(n - 1);
+        check_axis(c, D, idx, false);
+        long n2 = (long)r.range(2, 40); Axis nx = gen_range(r, n2);
+        c.op("setData-on-aliased-array | n=" + str(n2));
+        da.setData(nx.ticks); D.ax.ticks = nx.ticks;
+        std::vector<long> idx2; for (int j = 0; j < 10; j++) idx2.push_back((long)r.u(n2)); idx2.push_back(0); idx2.push_back(n2 - 1);
+        c.count("axis:alias"); c.count("axis_changed_behind_handle");
+        check_axis(c, D, idx2, false);
     }
     c.nontrivial = c.checks > 100;
     f.close();
